@@ -389,6 +389,64 @@ func runOpWith(w *world.World, op Op, begin bool) Outcome {
 		if err != nil {
 			out.Err = err.Error()
 		}
+	case "control":
+		out.Targets = pick(ids, op.Targets)
+		if len(out.Targets) == 0 {
+			break
+		}
+		ctx, cancel := context.WithTimeout(w.Ctx, 60*time.Second)
+		ch, err := w.Cal.ControlWorkload(ctx, append([]string(nil), out.Targets...), op.Name, op.Force)
+		if err != nil {
+			out.Err = err.Error()
+		} else {
+			for m := range ch {
+				out.Messages++
+				if m.Error != nil {
+					out.Failed = append(out.Failed, m.WorkloadID)
+				} else {
+					out.Succeeded = append(out.Succeeded, m.WorkloadID)
+				}
+			}
+		}
+		cancel()
+	case "send":
+		out.Targets = pick(ids, op.Targets)
+		if len(out.Targets) == 0 {
+			break
+		}
+		ctx, cancel := context.WithTimeout(w.Ctx, 60*time.Second)
+		ch, err := w.Cal.Send(ctx, &types.SendOptions{IDs: append([]string(nil), out.Targets...), Files: []types.LinuxFile{{Filename: "/s", Content: []byte("data"), Mode: 0o644}}})
+		if err != nil {
+			out.Err = err.Error()
+		} else {
+			for m := range ch {
+				out.Messages++
+				if m.Error != nil {
+					out.Failed = append(out.Failed, m.ID)
+				} else {
+					out.Succeeded = append(out.Succeeded, m.ID)
+				}
+			}
+		}
+		cancel()
+	case "capacity":
+		ctx, cancel := context.WithTimeout(w.Ctx, 60*time.Second)
+		_, err := w.Cal.CalculateCapacity(ctx, op.Deploy.Options())
+		cancel()
+		if err != nil {
+			out.Err = err.Error()
+		}
+	case "podresource":
+		ctx, cancel := context.WithTimeout(w.Ctx, 60*time.Second)
+		ch, err := w.Cal.PodResource(ctx, op.Name)
+		if err != nil {
+			out.Err = err.Error()
+		} else {
+			for range ch {
+				out.Messages++
+			}
+		}
+		cancel()
 	case "noderesource":
 		ctx, cancel := context.WithTimeout(w.Ctx, 60*time.Second)
 		_, err := w.Cal.NodeResource(ctx, op.Name, false)
